@@ -86,3 +86,51 @@ Lemma C_neq0_re (z : C) : fst z <> 0%R -> z <> 0.
 Proof. intros H E. rewrite E in H. cbn in H. lra. Qed.
 Lemma C_neq0_im (z : C) : snd z <> 0%R -> z <> 0.
 Proof. intros H E. rewrite E in H. cbn in H. lra. Qed.
+
+(* ---- lifting: complex expressions over real atoms are real expressions ---- *)
+Lemma Cinv_R (a : R) : / RtoC a = RtoC (/ a).
+Proof.
+  destruct (Req_EM_T a 0) as [->|Ha].
+  - unfold Cinv, RtoC; cbn [fst snd]. rewrite Rinv_0. unfold Rdiv.
+    apply injective_projections; cbn [fst snd]; lra.
+  - symmetry. apply RtoC_inv. exact Ha.
+Qed.
+Lemma Cdiv_R (a b : R) : RtoC a / RtoC b = RtoC (a / b).
+Proof. unfold Cdiv, Rdiv. rewrite Cinv_R, <- RtoC_mult. reflexivity. Qed.
+Lemma Cpow_pos_R (a : R) p : Cpow_pos (RtoC a) p = RtoC (a ^ Pos.to_nat p).
+Proof.
+  unfold Cpow_pos. induction p as [|p IH] using Pos.peano_ind.
+  - change (RtoC a = RtoC (a ^ 1)). rewrite pow_1. reflexivity.
+  - rewrite Pos.iter_op_succ by (intros; ring). rewrite IH, Pos2Nat.inj_succ. cbn [pow].
+    rewrite RtoC_mult. reflexivity.
+Qed.
+Lemma CpowZ_R (a : R) z : CpowZ (RtoC a) z = RtoC (powZ a z).
+Proof.
+  destruct z as [|p|p]; cbn [CpowZ powZ].
+  - reflexivity.
+  - apply Cpow_pos_R.
+  - rewrite Cpow_pos_R, Cinv_R. reflexivity.
+Qed.
+Lemma Cmod_RtoC (a : R) : Cmod (RtoC a) = Rabs a.
+Proof. apply Cmod_R. Qed.
+Lemma Cconj_R (a : R) : Cconj (RtoC a) = RtoC a.
+Proof. unfold Cconj, RtoC; cbn [fst snd]. f_equal. ring. Qed.
+Lemma Cexp_R (a : R) : Cexp (RtoC a) = RtoC (exp a).
+Proof. unfold Cexp, RtoC; cbn [fst snd]. rewrite cos_0, sin_0. f_equal; ring. Qed.
+Lemma CofZ_lift z : CofZ z = RtoC (IZR z). Proof. apply CofZ_R. Qed.
+Lemma CofPos_lift p : CofPos p = RtoC (IZR (Zpos p)). Proof. apply CofPos_R. Qed.
+Lemma fst_RtoC (a : R) : fst (RtoC a) = a. Proof. reflexivity. Qed.
+Lemma snd_RtoC (a : R) : snd (RtoC a) = 0%R. Proof. reflexivity. Qed.
+Lemma RtoC_0 : RtoC 0 = 0. Proof. reflexivity. Qed.
+Lemma RtoC_1 : RtoC 1 = 1. Proof. reflexivity. Qed.
+
+(* i * real and real * i forms *)
+Lemma re_Ci_mult (a : R) : Ci * RtoC a = (0%R, a).
+Proof. unfold Ci, Cmult, RtoC; cbn [fst snd]. f_equal; ring. Qed.
+
+Ltac lift_R :=
+  repeat first
+    [ rewrite CofZ_lift | rewrite CofPos_lift
+    | rewrite <- RtoC_plus | rewrite <- RtoC_mult | rewrite <- RtoC_opp | rewrite <- RtoC_minus
+    | rewrite Cinv_R | rewrite Cdiv_R | rewrite CpowZ_R | rewrite Cpow_pos_R | rewrite Cmod_RtoC
+    | rewrite Cconj_R | rewrite Cexp_R | rewrite fst_RtoC | rewrite snd_RtoC ].
